@@ -1,2 +1,22 @@
 (* C02 — the property theorems about the scheduler model, and nothing else. *)
 From VF Require Import Sched.Proofs.
+Open Scope Z_scope.
+
+(* One iteration of operation.waitExecution: if the task has a response the
+   message sent is the done message carrying exactly that response and the
+   stream moves to its return section with code OK ... *)
+Theorem stream_iter_done : forall c o s r,
+  t_resp (get_task s (o_task (get_op s o))) = Some r ->
+  stream_iter c o s = set_call c (PStreamReturn o cOK) (emit (OMsg c o 4 (Some r)) s).
+Proof. exact stream_iter_done. Qed.
+Print Assumptions stream_iter_done.
+
+(* ... otherwise a non-final message with a stage other than COMPLETED is
+   sent and the stream parks on the current stage-change generation. *)
+Theorem stream_iter_not_done : forall c o s,
+  t_resp (get_task s (o_task (get_op s o))) = None ->
+  let x := get_task s (o_task (get_op s o)) in
+  stream_iter c o s = set_call c (PStream o (t_gen x)) (emit (OMsg c o (task_stage x) None) s)
+  /\ task_stage x <> 4%N.
+Proof. exact stream_iter_not_done. Qed.
+Print Assumptions stream_iter_not_done.
